@@ -11,7 +11,7 @@ const c18HydraPath = "app/core/hydra/hydra.go"
 
 func init() {
 	Register("C18", Extractor{Import: "Hv.Props.C18", Type: "Hv.C18.Facts", Run: func(fs *Facts) {
-		names := []string{"lookupLoadOrStore", "enterUnderCondLock", "everyEntrantCounts", "leaveShape", "decDeleteAtomic", "createInsideOnly", "callbackCompares"}
+		names := []string{"lookupLoadOrStore", "enterUnderCondLock", "everyEntrantCounts", "leaveShape", "decDeleteAtomic", "exitRechecksClosing", "createInsideOnly", "callbackCompares"}
 		f, err := Load(c18HydraPath)
 		if err != nil {
 			fs.Err("%v", err)
@@ -142,7 +142,22 @@ func init() {
 		fs.Tri("everyEntrantCounts", counts, where)
 
 		// deferred block: Lock; ready = false; Broadcast; Unlock; then (AddInt32(-1); if == 0 { Delete }) | release()
-		leave, atomicDel := Unknown, Unknown
+		leave, atomicDel, recheck := Unknown, Unknown, Unknown
+		// the optional last statement of the deferred exit: an instance that is closing is not handed out
+		isRecheck := func(st ast.Stmt) bool {
+			is, ok := st.(*ast.IfStmt)
+			if !ok || is.Else != nil || !strings.Contains(f.Str(is.Cond), "swampObj.IsClosing()") || !strings.Contains(f.Str(is.Cond), "err == nil") {
+				return false
+			}
+			again := false
+			ast.Inspect(is.Body, func(n ast.Node) bool {
+				if as, ok := n.(*ast.AssignStmt); ok && f.Str(as) == "swampObj, err = h.SummonSwamp(ctx, islandID, swampName)" {
+					again = true
+				}
+				return true
+			})
+			return again
+		}
 		for _, st := range top {
 			d, ok := st.(*ast.DeferStmt)
 			if !ok {
@@ -158,15 +173,18 @@ func init() {
 				f.Str(b[2]) == "waiter.cond.Broadcast()" && f.Str(b[3]) == "waiter.cond.L.Unlock()"
 			switch {
 			case head && len(b) == 6 && isDec(b[4]) && isZeroDelete(b[5]):
-				leave, atomicDel = Yes, No // two separate atomic operations, no lock shared with the lookup
+				leave, atomicDel, recheck = Yes, No, No // two separate atomic operations, no lock shared with the lookup
 			case head && len(b) == 5 && isRelease(b[4]):
-				leave, atomicDel = Yes, Yes
+				leave, atomicDel, recheck = Yes, Yes, No
+			case head && len(b) == 6 && isRelease(b[4]) && isRecheck(b[5]):
+				leave, atomicDel, recheck = Yes, Yes, Yes
 			default:
 				leave = No
 			}
 		}
 		fs.Tri("leaveShape", leave, where)
 		fs.Tri("decDeleteAtomic", atomicDel, where)
+		fs.Tri("exitRechecksClosing", recheck, where)
 
 		// create/store only inside, after ready = true
 		creates := f.Calls(f.AST, "h.createNewSwamp")
